@@ -1006,8 +1006,6 @@ func (t *Tree) Compile(file string, args []string, out io.Writer) (err error) {
 			t.warn(fmt.Errorf("illegal node type: %v", n.GetType()))
 		}
 	}
-	dryCompile := true
-
 	compile = func(n *node, ko uint) (labelLast bool) {
 		switch n.GetType() {
 		case TypeRule:
@@ -1145,12 +1143,10 @@ func (t *Tree) Compile(file string, args []string, out io.Writer) (err error) {
 					_print(" '%s'", escape(character.String()))
 				}
 				_print(":")
-				if !dryCompile {
-					sequence.SetParentDetect(true)
-					if class.Len() > 1 {
-						sequence.SetParentMultipleKey(true)
-					}
-				}
+				/* the dry pass must take the same shortcuts as the real pass, or it
+				   marks labels as used that the real pass never jumps to */
+				sequence.SetParentDetect(true)
+				sequence.SetParentMultipleKey(class.Len() > 1)
 				if compile(sequence, done) {
 					_print("\nbreak")
 				}
@@ -1273,7 +1269,6 @@ func (t *Tree) Compile(file string, args []string, out io.Writer) (err error) {
 	}
 	_print = printTemp
 	label = 0
-	dryCompile = false
 
 	/* now for the real compile pass */
 	t.PegRuleType = "uint8"
